@@ -129,7 +129,8 @@ PLAN = {
                       + [rnd(k, 'real', 'burst', 9, 90) for k in ('ja', 'tja', 'mb', 'mu')]},
     'C02': {'mc': mcs('fub', 'fub_b1', 'fub_init', 'fob', 'fo', 'fu', thorough=('fub_c3', 'fu4', 'fob4c3')),
             'gen': gens('fub', 'fub_init', 'fu', 'fob', 'fo'),
-            'random': suite(COLL_KINDS, profiles=('stale',)) + [rnd('fub', 'real', 'stale_big', 3, 20), rnd('fu', 'real', 'stale_big', 2, 10)]},
+            'random': suite(COLL_KINDS, profiles=('stale',)) + [rnd('fub', 'real', 'stale_big', 3, 20), rnd('fu', 'real', 'stale_big', 2, 10)]
+                      + [rnd(k, 'real', 'stale_empty', 4, 40) for k in COLL_KINDS]},
     'C03': {'mc': [], 'gen': [], 'random': [], 'extra': ['refcount_engine'], 'trace_spec': ('TraceRc.tla', 'TraceRc.cfg')},
     'C04': {'extra': ['ordered_engine'],
             'mc': mcs('fob', 'fo', 'bo', 'tbo', 'ja', 'tja', thorough=('fob4c3', 'bo4', 'tbo4', 'ja4', 'tja4')),
@@ -223,12 +224,12 @@ META = {
  'C03': _m('RefCount.tla (owners, free at 1->0, vector-clock happens-before) is model-checked with the atomic orderings EXTRACTED from src/waker_list.rs; the probe events of real executions (allocation, release with layout, every waker-vtable entry with the header it resolves to, old reference counts, task-waker clone/drop) are validated by TLC against AbsRc.tla: accounting, release exactly once by the thread that took the count to zero, nothing touches a released block, nothing leaks, the registered task waker is destroyed only inside register or the release. Real threads: exhaustive preemption-bounded schedules, random gate schedules, free-running stress.',
             'the memory orderings are bound statically (extractor + model), not observed; UB without an observable event (provenance, aliasing) is out of reach of this technique.',
             'TLA+ specs (RefCount, AbsRc) + TLC; probe-trace validation of sequential and gate-scheduled executions'),
- 'C04': _m('Ordered.tla models the ordering layer with K-bit wrapping counters and exactly the arithmetic of the code, for ALL 2^K start values (K=4, thorough 5) with a TLC-checked homomorphism to wider counters; its behaviours are replayed on FuturesOrdered/FuturesOrderedBounded seeded (hook) at the 64-bit images of the start values; yield order is a clause of Abs.tla (reference deque), also for the ordered adapters and the joins.'),
- 'C05': _m('A finished child is never polled again and is dropped before the poll that saw it finish returns: clauses of Abs.tla (StepCin, StepRet), invariants of Coll||Abs incl. stale wakers on vacated and reused slots.'),
- 'C06': _m('Every child and output is dropped exactly once: clauses of Abs.tla evaluated at every drop event, at the end of the drop of the collection and at the end of the run; the state cover is prefix-closed and replayed with a "drop now" tail, i.e. the collection is dropped after every prefix.'),
+ 'C04': _m('Ordered.tla models the ordering layer with K-bit wrapping counters and exactly the arithmetic of the code, for ALL 2^K start values (K=4, thorough 5) with a TLC-checked homomorphism to wider counters; its behaviours are replayed on FuturesOrdered/FuturesOrderedBounded seeded (hook) at the 64-bit images of the start values; yield order is a clause of Abs.tla (reference deque), also for the ordered adapters and the joins; besides misordering, the stalled form (the output next in queue order exists but a poll answers Pending/None) is a clause; Extend and push_front/try_push_front after refusals are exercised.'),
+ 'C05': _m('A finished child is never polled again and is dropped before the poll that saw it finish returns: clauses of Abs.tla (StepCin, StepRet), invariants of Coll||Abs incl. stale wakers on vacated and reused slots; also checked where a join resolves (vec/err) and after a child poll panicked.'),
+ 'C06': _m('Every child and output is dropped exactly once: clauses of Abs.tla evaluated at every drop event, at the end of the drop of the collection and at the end of the run; the state cover is prefix-closed and replayed with a "drop now" tail, i.e. the collection is dropped after every prefix; children and outputs without drop glue and zero-sized outputs are accounted for by the harness; the upstream stream of an adapter is a tracked object; child polls that panic are part of the model.'),
  'C07': _m('join_all/try_join_all never hand out a value no input produced: clauses StepVec/StepErr of Abs.tla over tagged tokens (a fabricated or uninitialised element is recognised by its tag), invariants of Coll||Abs for all completion orders, failing subsets and re-polls after the first Ready.'),
- 'C08': _m('The address of every !Unpin child is logged at each poll and at drop and must never change (clause of Abs.tla), across group growth/removal/rotation, slot reuse and moves of the collection value.'),
- 'C09': _m('The concurrency limit is respected and the adapters are work-conserving: clauses of Abs.tla (StepUp, StepRet) and invariants of Coll||Abs with a nondeterministic upstream (items, Pending gaps, errors, end).'),
+ 'C08': _m('The address of every !Unpin child is logged at each poll and at drop and must never change (clause of Abs.tla), across group growth/removal/rotation, slot reuse and moves of the collection value; the (!Unpin) upstream stream of every adapter is tracked in the same way.'),
+ 'C09': _m('The concurrency limit is respected and the adapters are work-conserving: clauses of Abs.tla (StepUp, StepRet) and invariants of Coll||Abs with a nondeterministic upstream (items, Pending gaps, errors, end); limits up to 2049 on the code.'),
  'C10': _m('Upstream is consumed once, in order, fused, and the adapters end exactly when done: clauses of Abs.tla; the documented limit 0 of for_each_concurrent is exercised and is a recorded known finding.'),
  'C11': _m('Merge = union of the sources in per-source order, None iff all ended, Pending only while a source is pending: clauses of Abs.tla, invariants of Coll||Abs for MergeBounded/MergeUnbounded incl. sources pushed while running and groups emptied in the middle.'),
  'C12': _m('Children are polled only on notification (per-child clause, sharper than the count form), also for wakers invoked on other threads where the notification is consumed at the flag clear.'),
@@ -236,7 +237,7 @@ META = {
  'C14': _m('No busy-spinning: quiet-phase counter and "task waker only inside a poll or a child-waker call" of Abs.tla; quiet tails (held+3 polls without activity) are appended to the replayed state cover and to random runs. The budget/stale-waker corner is a recorded known finding.'),
  'C15': _m('Capacity and observer contract: the observers are read after every operation and compared by Abs.tla with accepted - yielded; refusal/panic of push; a delivery fault after a refused push counts as a fault of the refusal contract.'),
  'C16': _m('Back-pressure of the ordered adapters (pulled - yielded <= n) is a clause of Abs.tla, invariant of Coll||Abs; head-of-line stall profile on the code.'),
- 'C17': _m('size_hint is compared after every operation with the number of items the stream will still yield, which the environment knows (scripts), for honest upstream hints exact / lower-only / none / loose.'),
- 'C18': _m('A counting global allocator attributes allocations to "inside the crate"; zero after construction for the bounded kinds, adapters and joins, logarithmic in the peak for the unbounded kinds (clauses of Abs.tla), under long fill/drain/refill oscillations with waker clone/drop storms.'),
+ 'C17': _m('size_hint is compared after every operation with the number of items the stream will still yield, which the environment knows (scripts), for honest upstream hints exact / lower-only / none / loose / more than usize::MAX items, and honest hints of merged sources; a stream that ends although an earlier lower bound promised more items is a fault too.'),
+ 'C18': _m('A counting global allocator attributes allocations to "inside the crate"; zero after construction for the bounded kinds, adapters and joins, logarithmic in the peak for the unbounded kinds (clauses of Abs.tla), under long fill/drain/refill oscillations with waker clone/drop storms, gated rounds drained exactly to empty, creeping peaks, push_front churn with a parked backlog and (thorough) peaks above 2000.'),
 }
 UNCLAIMED = {}
